@@ -82,7 +82,7 @@ pub fn generator_spec(path: &str, args: &[(String, String)]) -> String {
 }
 
 pub const GEN_PATHS: &[&str] = &["gen-alpha", "tools/beta.exe", "/usr/local/bin/gamma", "./delta gen", "EPSILON.sh", "we,ird=zeta"];
-pub const POOL: &[&str] = &["a.txt", "gen/b.cs", "c.rs", "deep/er/d.txt", "same.txt", "diff.txt", "adir", "ro.txt", "x.txt"];
+pub const POOL: &[&str] = &["a.txt", "gen/b.cs", "c.rs", "deep/er/d.txt", "same.txt", "diff.txt", "adir", "ro.txt", "x.txt", "./dot.txt", "gen/./c2.cs"];
 
 /// Deterministic contents of a generated file: a function of (path, version, big).
 pub fn content_for(path: &str, version: u8, big: bool) -> Vec<u8> {
@@ -124,6 +124,13 @@ fn reply_from_pool(rng: &mut Rng, max_files: usize, allow_big: bool) -> Reply {
         let version = rng.below(2) as u8;
         let big = allow_big && rng.chance(1, 8);
         files.push(RFile { path: path.as_bytes().to_vec(), contents: content_for(path, version, big) });
+    }
+    // now and then a reply with many files
+    if rng.chance(1, 40) {
+        for i in 0..40 + rng.usize_below(60) {
+            let path = format!("many{i}.txt");
+            files.push(RFile { path: path.clone().into_bytes(), contents: content_for(&path, 0, false) });
+        }
     }
     let mut reply = gens::random_reply(rng, &[], 0, false);
     reply.files = files;
